@@ -172,6 +172,19 @@ func c09State(w *wctx, p *position.Position, r *refchess.Pos) {
 			run.Violate("legality-panic", "IsLegalMove/WasLegalMove panicked: "+msg, w.replayOf(r, rep))
 			continue
 		}
+		// the post-move test on a position object on which nothing was asked before the move (set up from FEN, as a GUI
+		// hands it over): for castling moves and for every move of a position in check
+		if t.Kind == refchess.Castling || want {
+			if fp, err := position.NewPositionFen(r.FEN()); err == nil && pseudoRef[t] {
+				var post2 bool
+				if msg, pan := vl.Guard(func() { fp.DoMove(m); post2 = fp.WasLegalMove() }); pan {
+					run.Violate("legality-panic", "DoMove/WasLegalMove on a fresh position panicked: "+msg, w.replayOf(r, rep))
+				} else if post2 != legalRef[t] {
+					run.Violate("waslegal-unprimed-vs-rules:"+kindNames[t.Kind], fmt.Sprintf("position set up from FEN, DoMove, WasLegalMove=%v but rules say legal=%v", post2, legalRef[t]), w.replayOf(r, rep))
+				}
+				run.AddEvals(1)
+			}
+		}
 		if pre != post {
 			run.Violate("islegal-vs-waslegal:"+kindNames[t.Kind], fmt.Sprintf("IsLegalMove=%v but WasLegalMove=%v", pre, post), w.replayOf(r, rep))
 		}
